@@ -38,7 +38,10 @@ entry in the real parent and that entry holds the node (else "!kid=0"/"!kval=0" 
 deletes trailing / all elements, appends, replaces an element, adds / replaces / deletes object members
 ("@e PATH:OP&…").  json_visit.c reads a container's type, length and member table after that call, so
 the reference is the traversal of the tree with the edits carried out (settle).  Edits of a container
-whose member loop is already running are outside this class (the array length is read once).
+whose member loop is already running are outside this class (the array length is read once), with
+one exception that json_object_object_foreach makes safe: "PATH:S" — during its SECOND call a container
+that is an object member removes itself from the parent (json_object_object_del(parent, key)); the
+traversal goes on with the next sibling, positions counted in the parent as it is then.
 Line syntax:  PROG { ; PROG },  PROG := TREE SCHED { ( K PROG ) }  (see harness/drv_visit.c);
 observation "T<i> <calls> | ret <r>" / "T<i> notrun" joined by " || ", every call with a sixth
 token naming the user argument it arrived with ("own" / "arg<j>").
@@ -126,14 +129,17 @@ def _pstr(pst):
     return pre + ("/%d^%d" % (v, c) if c > 1 else "/%d" % v)
 
 
-def ref_visit(tree, sched):
+def ref_visit(tree, sched, selfdel=()):
     """json_visit.h: call userfunc for every node, depth first; parent and key or index are
     passed; containers get a second call (JSON_C_VISIT_SECOND) after their members.
     SKIP: members of the current node are not iterated.  POP: the containing node stops
     iterating its members; the next call is its second call.  STOP: end now, success.
     ERROR: end now, failure.  Anything else is not a defined return value: failure.
     Written with an explicit stack of open containers (no recursion: trees may be thousands
-    of levels deep).  Returns ([call strings], result)."""
+    of levels deep).  `selfdel`: paths (as printed) of containers whose callback, during their second
+    call, removes them from their parent object: the visitor has saved the next member before the
+    call, so the next sibling follows; positions are those in the parent as it is then.
+    Returns ([call strings], result)."""
     calls = []
     nsched = len(sched)
 
@@ -172,14 +178,18 @@ def ref_visit(tree, sched):
         else:
             open_.pop()
             r = ask(fr[0], SECOND, fr[1], fr[2], fr[3])
+            if selfdel and fr[0] in selfdel and open_ and open_[-1][4].startswith("o@"):
+                par = open_[-1]
+                del par[5][par[6] - 1]
+                par[6] -= 1
             if r == STOP:
                 return calls, 0
             if r not in (CONTINUE, SKIP, POP):   # on a second call SKIP and POP mean: go on
                 return calls, -1
 
 
-def want_obs(tree, sched):
-    calls, res = ref_visit(tree, sched)
+def want_obs(tree, sched, selfdel=()):
+    calls, res = ref_visit(tree, sched, selfdel)
     return " | ".join(calls + ["ret %d" % res]), len(calls)
 
 
@@ -310,6 +320,8 @@ def parse_edits(opts):
 
 def _apply_op(v, op):
     c, body = op[0], op[1:]
+    if c == "S":
+        return v
     if isinstance(v, list):
         if c == "d":
             k = min(int(body), len(v))
@@ -334,6 +346,18 @@ def _apply_op(v, op):
                 return ("o", [(a, val if a == key else b) for a, b in v[1]])
             return ("o", v[1] + [(key, val)])
     return v
+
+
+def _selfdel(edits):
+    """the "PATH:S" edits, as printed paths"""
+    out = set()
+    for p, op in edits:
+        if op == "S":
+            pst = None
+            for i in p:
+                pst = _pext(pst, i)
+            out.add(_pstr(pst))
+    return out
 
 
 def settle(v, edits, path=()):
@@ -921,6 +945,38 @@ def gen_edits(rng, tier):
     # appended / replacing values that are edited in turn when their own first call comes
     emit([None], [((), "a[t]"), ((1,), "a{61=n}"), ((1, 1), "A62=[]"), ((1, 1, 1), "an")], [[], [0, 0, 0, SKIP], [0, 0, 0, 0, 0, POP]])
     emit(("o", [(b"a", [None, None])]), [((), "A62=[n,n,n]"), ((0,), "D"), ((1,), "d1"), ((1,), "ai7")], [[], [0, 0, 0, 0, STOP]])
+    # during its SECOND call a container removes itself from its parent object (0, 1, several later
+    # siblings; scalars, nulls and containers after it; several self-removing members; nested; with
+    # SKIP / POP / STOP around it).  Array elements are left out: the unchanged visitor reads the array
+    # length once, so after json_object_array_del_idx it skips the next element and reports a null at
+    # the stale last index - defined, but not a traversal anyone documents.
+    def emit_s(tree, paths, scheds):
+        text = dump(tree)
+        edits = [(p, "S") for p in paths]
+        opts = "@e" + "&".join("/" + "/".join(str(i) for i in p) + ":S" for p in paths)
+        sd = _selfdel(edits)
+        for sc in scheds:
+            obs, _ = want_obs(tree, sc, sd)
+            out.append((mkline(text, sc, opts), {"kind": "edits", "want": obs}))
+    conts = [[], [None], ("o", []), ("o", [(b"x", [True])]), [[None], ("o", [(b"y", None)])]]
+    later = [[], [("i", 1)], [None, [True]], [("o", [(b"z", None)]), None, b"s"]]
+    for c in conts:
+        for lat in later:
+            for before in ([], [None], [[None], True]):
+                mem = [(b"b%d" % i, x) for i, x in enumerate(before)] + [(b"me", c)] + [(b"l%d" % i, x) for i, x in enumerate(lat)]
+                obj = ("o", mem)
+                at = (len(before),)
+                n = len(ref_visit(obj, [])[0])
+                scs = [[]] + [[CONTINUE] * k + [code] for k in rng.sample(range(n), min(n, 3 if not thorough else n))
+                              for code in rng.sample([SKIP, POP, STOP, ERROR], 1 if not thorough else 4)]
+                emit_s(obj, [at], scs)
+                emit_s([True, obj], [(1,) + at], [[]])
+                emit_s(("o", [(b"w", obj), (b"v", None)]), [(0,) + at, (0,)], [[]])
+    # several members remove themselves, one after the other (the next one moves into the freed position)
+    many = ("o", [(b"k%d" % i, [("i", i)] if i % 3 else ("o", [(b"q", None)])) for i in range(6)] + [(b"end", None)])
+    emit_s(many, [(0,)], [[]])
+    emit_s(many, [(1,)], [[], [0, 0, 0, 0, SKIP], [0] * 9 + [POP]])
+    emit_s(many, [(0,), (2,)], [[]])
     # random trees, random edits on random containers (addressed in the tree as it is at that time)
     for _ in range(250 if not thorough else 5000):
         tree = jvtext.gen_tree(rng, depth=3, size=4, nuls=False)
@@ -994,7 +1050,7 @@ def oracle(line, meta, impl):
     text, tree, sched, _opts = parse_line(line)
     if want is None:
         eds = parse_edits(_opts)
-        want, _ = want_obs(settle(tree, eds) if eds else tree, sched)
+        want, _ = want_obs(settle(tree, eds) if eds else tree, sched, _selfdel(eds))
     if impl == want:
         return None
     got = impl.split(" | ")
